@@ -49,12 +49,12 @@ func scenario(hold time.Duration) string {
 	cfg := &server.Config{ProverAddress: freePort(), MetricsAddress: freePort(), Mode: server.DeletionMode}
 	inst := server.Run(cfg, nil)
 	murl := "http://" + cfg.MetricsAddress + "/metrics"
-	for i := 0; i < 200 && gauge(murl) < 0; i++ {
+	for i := 0; i < 3000 && gauge(murl) < 0; i++ {
 		time.Sleep(10 * time.Millisecond)
 	}
 	var conn net.Conn
 	var err error
-	for i := 0; i < 200; i++ {
+	for i := 0; i < 3000; i++ {
 		if conn, err = net.Dial("tcp", cfg.ProverAddress); err == nil {
 			break
 		}
@@ -68,7 +68,7 @@ func scenario(hold time.Duration) string {
 	half := len(body) / 2
 	fmt.Fprintf(conn, "POST /prove HTTP/1.1\r\nHost: x\r\nContent-Type: application/json\r\nContent-Length: %d\r\n\r\n%s", len(body), body[:half])
 	seen := false
-	for i := 0; i < 300; i++ {
+	for i := 0; i < 3000; i++ {
 		if gauge(murl) >= 1 {
 			seen = true
 			break
@@ -90,7 +90,7 @@ func scenario(hold time.Duration) string {
 	if _, err := fmt.Fprint(conn, body[half:]); err != nil {
 		return "connection of the in-flight request was closed under it: " + err.Error()
 	}
-	conn.SetReadDeadline(time.Now().Add(20 * time.Second))
+	conn.SetReadDeadline(time.Now().Add(120 * time.Second))
 	resp, err := http.ReadResponse(bufio.NewReader(conn), nil)
 	if err != nil {
 		return "no complete response for the in-flight request: " + err.Error()
@@ -101,8 +101,8 @@ func scenario(hold time.Duration) string {
 	}
 	select {
 	case <-returned:
-	case <-time.After(20 * time.Second):
-		return "AwaitStop did not return within 20 s after the last request completed (deadlock?)"
+	case <-time.After(120 * time.Second):
+		return "AwaitStop did not return within 120 s after the last request completed (deadlock?)"
 	}
 	for _, a := range []string{cfg.ProverAddress, cfg.MetricsAddress} {
 		l, e := net.Listen("tcp", a)
